@@ -783,7 +783,7 @@ where
             Code::RelativeID | Code::Relative1 => {
                 let min_level = std::cmp::min(t_level, e_level);
                 let child_min_suppvar = if min_level == LevelNo::MAX {
-                    level_suppvar_map.len()
+                    suppvar_level_map.len()
                 } else {
                     level_suppvar_map[min_level as usize] as usize
                 };
@@ -794,7 +794,9 @@ where
             }
         };
 
-        let level = suppvar_level_map[vid as usize];
+        let Some(&level) = suppvar_level_map.get(vid) else {
+            return err("variable ID out of range");
+        };
         if level >= t_level || level >= e_level {
             return err("node level must be less than the children's levels");
         }
